@@ -204,6 +204,37 @@ ObserverNeverVotesOrLeads ==
 (* the member view of a read-only node never contains read-only nodes, and no voter counts one as a member *)
 ObserversAreNotMembers == \A n \in Nodes : Live(n) => node[n].others \cap Observers = {}
 
+(* C05: evaluated at the end of a quiet period (all links up, timely ticks, all messages delivered, an      *)
+(* election timer fired whenever no leader was known): one leader, everybody follows it, commands submitted *)
+(* in the quiet period succeeded, every running node has the same applied position and the same state       *)
+LiveNodes == {n \in Nodes : Live(n)}
+LiveVoters == {n \in LiveNodes : IsVoter(n)}
+Converged ==
+  LET leaders == {n \in LiveVoters : node[n].role = "L"}
+      \* the precondition of the property: a majority of the members can exchange messages
+      members(n) == node[n].others \cup {n}
+      ok(n) == 2 * Cardinality(members(n) \cap LiveVoters) > Cardinality(members(n))
+  IN (\E n \in LiveVoters : ok(n) /\ \A m \in LiveVoters : members(m) = members(n)) =>
+     /\ Cardinality(leaders) = 1
+     /\ \A l \in leaders :
+           /\ \A n \in LiveNodes \cap (members(l) \cup Observers) : node[n].leader = l /\ node[n].term = node[l].term
+           /\ \A n \in LiveNodes \cap (members(l) \cup Observers) :
+                 node[n].applied = node[l].applied /\ node[n].hist = node[l].hist /\ node[n].commit = node[l].commit
+           /\ node[l].commit = LastIdx(node[l])
+     /\ \A c \in QuietCids : c \in DOMAIN cbs /\ \E k \in 1..Len(cbs[c]) : cbs[c][k][2] = SUCCESS
+
+(* signature of known finding KF5: a follower whose LAST entry conflicts with the leader's log, several batches *)
+(* behind: every round the leader's first batch is answered with the useful hint (retry from the conflicting    *)
+(* index) but the batches sent after it in the same pass are answered with 'I miss your previous entry, send    *)
+(* from my last index + 1', which overwrites the useful hint - the follower is never repaired                    *)
+ResetLivelockSig ==
+  \E l \in LiveVoters : node[l].role = "L" /\ \E f \in (node[l].others \cup node[l].ro) \cap LiveNodes :
+     LET fl == node[f].log
+         li == Last(fl).idx
+     IN /\ li < LastIdx(node[l]) /\ li >= FirstIdx(node[l])
+        /\ node[l].log[li - FirstIdx(node[l]) + 1].term # Last(fl).term
+        /\ f \in DOMAIN node[l].nextIdx /\ node[l].nextIdx[f] >= li + 1
+
 StateViolations ==
      (IF ApplyAgreement THEN {} ELSE {"C01.ApplyAgreement"})
 \cup (IF StateIsPrefixFold THEN {} ELSE {"C01.StateIsPrefixFold"})
